@@ -14,6 +14,7 @@ class Models(Simd):
         self.register_simd()
         R(r"^core::num::<impl (u|i)(8|16|32|64|128|size)>::wrapping_(add|sub|mul|neg|shl|shr)$", self.m_wrapping)
         R(r"^core::num::<impl (u|i)(8|16|32|64|128|size)>::(to_le_bytes|to_be_bytes|to_ne_bytes)$", self.m_to_bytes)
+        R(r"^<&'?\w* ?(u|i)(8|16|32|64|128|size) as core::ops::(Add|Sub|Mul|Div|Rem|BitAnd|BitOr|BitXor|Shl|Shr)<&?'?\w* ?(u|i)(8|16|32|64|128|size)>>::\w+$", self.m_ref_binop)
         R(r"^core::num::<impl (u|i)(8|16|32|64|128|size)>::(from_le_bytes|from_be_bytes)$", self.m_from_bytes)
         R(r"^core::num::<impl (u|i)(8|16|32|64|128|size)>::(leading_zeros|trailing_zeros|count_ones)$", lambda *a: I(0, 128))
         R(r"IntoIterator.*>::into_iter$|core::iter::Iterator>::by_ref$", self.m_into_iter)
@@ -99,6 +100,12 @@ class Models(Simd):
         return NotImplemented
 
     # ------------------------------------------------------------------ integers
+    def m_ref_binop(self, ip, fv, st, depth, t, n, a, dty):
+        """arithmetic operators on references to integers (`&x % 2`): the operator on the pointees"""
+        op = re.search(r"core::ops::(\w+)<", n).group(1)
+        x, y = ip.deconst(ip.deref_val(st, a[0])), ip.deconst(ip.deref_val(st, a[1]))
+        return ip.binop(op, x, y, dty)
+
     def m_wrapping(self, ip, fv, st, depth, t, n, a, dty):
         m = re.search(r"<impl ((u|i)(8|16|32|64|128|size))>::wrapping_(\w+)$", n)
         ty, op = m.group(1), m.group(4)
@@ -375,6 +382,29 @@ class Models(Simd):
                 cur = I(cur[1] + stp[1] - 1, cur[2] + stp[1] - 1)
                 return item, ("it", "stepby", ("it", "range", cur, end, inner[4]), stp, 0)
             return TOP, None
+        if k == "filter" and len(it) > 3 and it[3] is not None:
+            # evaluate the predicate on concrete items: a definite answer keeps / skips the item exactly
+            inner, clo = it[2], it[3]
+            cur = inner
+            for _ in range(64):
+                item, new = self.step(ip, st, cur)
+                nxt = new if new is not None else cur
+                if item[0] != "en" or len(item[1]) != 1:
+                    break                      # unknown / maybe-end: fall back to the summary below
+                if item[1][0][0] == 0:
+                    return item, ("it", "filter", nxt, clo)
+                x = item[1][0][1][0]
+                if not (x[0] == "i" and x[1] == x[2]):
+                    break
+                slot = ("f", id(clo) & 0xFFFF)
+                st.frames[0][slot] = x
+                r = ip.deconst(self.apply_closure(ip, st, clo, [("ref", 0, slot, ())]))
+                if r[0] == "i" and r[1] == r[2]:
+                    if r[1]:
+                        return item, ("it", "filter", nxt, clo)
+                    cur = nxt
+                    continue
+                break
         if k == "filter":
             inner = it[2]
             # a filtered iterator yields a subset: any remaining element, or None
@@ -387,7 +417,7 @@ class Models(Simd):
                         return ("en", ((0, ()),)), it
                     anyitem = I(cur[1], end[2] - 1)
                     newinner = ("it", "range", I(cur[1] + 1, end[2]), end, inner[4])
-                    return ("en", ((0, ()), (1, (anyitem,)))), ("it", "filter", newinner)
+                    return ("en", ((0, ()), (1, (anyitem,)))), ("it", "filter", newinner) + tuple(it[3:])
             return TOP, None
         if k == "filtermap":
             inner, clo = it[2], it[3]
@@ -512,7 +542,7 @@ class Models(Simd):
 
     def m_filter(self, ip, fv, st, depth, t, n, a, dty):
         a = [self.as_it(ip, st, a[0])] + list(a[1:])
-        return ("it", "filter", a[0]) if a[0][0] == "it" else TOP
+        return ("it", "filter", a[0], a[1] if len(a) > 1 else None) if a[0][0] == "it" else TOP
 
     def m_map(self, ip, fv, st, depth, t, n, a, dty):
         a = [self.as_it(ip, st, a[0])] + list(a[1:])
@@ -535,6 +565,25 @@ class Models(Simd):
         wrapped = re.search(r"collect::<core::(result::Result|option::Option)<", n)
         okv = (0 if "result::Result" in wrapped.group(1) else 1) if wrapped else None
         self._collect_flags = {"fail": False, "all_ok": True}
+        if wrapped and getattr(ip, "exact_small_vecs", False) and a[0][0] == "it":
+            n_lo, n_hi = self.iter_len(ip, st, a[0])
+            if n_lo == n_hi and 0 < n_hi <= 8:
+                items, cur, exact = [], a[0], True
+                for _ in range(n_hi + 1):
+                    item, new = self.step(ip, st, cur)
+                    if item[0] != "en" or len(item[1]) != 1:
+                        exact = False
+                        break
+                    if item[1][0][0] == 0:
+                        break
+                    e = item[1][0][1][0]
+                    if e[0] != "en" or len(e[1]) != 1 or e[1][0][0] != okv or len(e[1][0][1]) != 1:
+                        exact = False
+                        break
+                    items.append(e[1][0][1][0])
+                    cur = new if new is not None else cur
+                if exact and len(items) == n_hi:
+                    return ("en", ((okv, (("arr", tuple(items)),)),))
         v = self.collect_vec(ip, st, a[0], okv)
         fl = self._collect_flags
         if wrapped:
@@ -690,6 +739,20 @@ class Models(Simd):
                 self._collect_flags["fail"] = True       # unknown iterator: a failure item cannot be excluded
             return ("vec", TOP, 0, 2**32)
         n_lo, n_hi = self.iter_len(ip, st, it)
+        if n_lo == n_hi and 0 < n_hi <= 8 and wrapped is None and getattr(ip, "exact_small_vecs", False):
+            # a short iterator of exactly known length: enumerate it (the Vec is then an array of its elements, no summary)
+            items, cur, exact = [], it, True
+            for _ in range(n_hi + 1):
+                item, new = self.step(ip, st, cur)
+                if item[0] != "en" or len(item[1]) != 1:
+                    exact = False
+                    break
+                if item[1][0][0] == 0:
+                    break
+                items.append(item[1][0][1][0])
+                cur = new if new is not None else cur
+            if exact and len(items) == n_hi:
+                return ("arr", tuple(items))
         r = self.collect_vec1(ip, st, it, wrapped)
         return ("vec", r[1], n_lo if r[2] == 0 and r[3] == 2**32 else r[2], n_hi if r[3] == 2**32 else r[3])
 
